@@ -159,10 +159,11 @@ class CodecUnit(Unit):
         info = failure['extra']
         obs = []
         mdl = failure.get('model') or {}
-        for strided in (False, True):
+        for strided, sizes in ((False, 'model'), (True, 'model'), (True, (3, 5))):      # the solver's sizes may be degenerate for memory order (a 1xN image is contiguous either way)
             frames = {}
             for i, (k, ne) in enumerate(info['specs']):
-                f = F.native_frame(dict(kind=k[0], fmt=k[1], wr=k[2], jpgcached=k[3], caches=[], h=mdl.get(f'h_t{i}'), w=mdl.get(f'w_t{i}')))
+                hh, ww = (mdl.get(f'h_t{i}'), mdl.get(f'w_t{i}')) if sizes == 'model' else sizes
+                f = F.native_frame(dict(kind=k[0], fmt=k[1], wr=k[2], jpgcached=k[3], caches=[], h=hh, w=ww))
                 if strided and f.has_image and f.has_raw and not f.has_jpg:
                     img = f.image
                     view = np.ascontiguousarray(np.swapaxes(img, 0, 1)).swapaxes(0, 1)      # same logical pixels, axis-permuted (non C-contiguous) memory
